@@ -181,10 +181,23 @@ class Facts:
                         out.append((p, bi, "calldst", t))
         return out
 
-    def constructions(self, adt, variant=None):
-        """All aggregate constructions of an ADT: [(path, block, stmt)]"""
+    def derived_trait_of(self, fn_path):
+        """Trait path when fn_path is a method of an #[automatically_derived] impl, else None."""
+        if not hasattr(self, "_derived"):
+            self._derived = {}
+            for i in self.impls:
+                if i["derived"] and i["trait"]:
+                    for it in i["items"]:
+                        self._derived[it] = i["trait"]["path"]
+        base = fn_path.split("::{closure#")[0]
+        return self._derived.get(base)
+
+    def constructions(self, adt, variant=None, skip_derived=("core::clone::Clone",)):
+        """All aggregate constructions of an ADT: [(path, block, stmt)] (derived Clone impls are pass-through and skipped)"""
         out = []
         for p, bs in self.bodies_all.items():
+            if skip_derived and self.derived_trait_of(p) in skip_derived:
+                continue
             for b in bs:
                 m = b.get("mir")
                 if not m:
